@@ -500,6 +500,37 @@ func c14Prop(c *Ctx) {
 		}
 		return in
 	}
+	// lists nested twelve deep (a stack of per-list iterators must keep the state of every enclosing list):
+	// post-phase edits on the enclosing elements, many scripts
+	{
+		var sb strings.Builder
+		sb.WriteString("package a\n\nfunc f() {\n")
+		depth := 12
+		for d := 0; d < depth; d++ {
+			ind := strings.Repeat("\t", d+1)
+			fmt.Fprintf(&sb, "%sa%d()\n%s{\n", ind, d, ind)
+		}
+		fmt.Fprintf(&sb, "%sx()\n", strings.Repeat("\t", depth+1))
+		for d := depth - 1; d >= 0; d-- {
+			ind := strings.Repeat("\t", d+1)
+			fmt.Fprintf(&sb, "%s}\n%sb%d()\n", ind, ind, d)
+		}
+		sb.WriteString("}\n")
+		deep := sb.String()
+		for rep := 0; rep < c.N(30); rep++ {
+			in := c14Input{Src: deep, Pre: map[string]c14Step{}, Post: map[string]c14Step{}}
+			ncb := 230 // callbacks are counted across pre and post: the posts of the enclosing blocks come late
+			for s := 0; s < 4; s++ {
+				st := c14Step{Return: true, Ops: []string{[]string{"after", "delete", "before", "replace"}[c.Rng.Intn(4)]}}
+				in.Post[fmt.Sprint(c.Rng.Intn(ncb+1))] = st
+			}
+			c.Res.Evaluations++
+			c.Res.hist("c14-mode", "deep nesting, post edits")
+			if key, what := c14Check(in); key != "" {
+				c.Res.fail(key, what, in)
+			}
+		}
+	}
 	for _, src := range srcs {
 		for rep := 0; rep < c.N(3); rep++ {
 			for mode := 0; mode <= 7; mode++ {
